@@ -48,6 +48,7 @@ def _run_case(case):
             torch.manual_seed(cfg['xseed'])
             with torch.no_grad():
                 m(x)
+            summ_before = m.summary()      # what summary() says at the moment of the export
             e = m.export()
             m.eval()
             with torch.no_grad():
@@ -56,6 +57,7 @@ def _run_case(case):
             m.eval()
             with torch.no_grad():
                 y = m(x)
+            summ_before = m.summary()
             e = m.export()
         e.eval()
         with torch.no_grad():
@@ -76,18 +78,19 @@ def _run_case(case):
             d = float((y - y2).abs().max()) if y.shape == y2.shape else 'shape'
             res['fail'].append(('output', 'eval-mode MPS output differs from exported network: max abs diff %s' % d))
         # ---- oracle 2: exported bit-widths are the ones summary() reports
-        summ = m.summary()
-        for name, l in e.named_modules():
-            if isinstance(l, (QuantConv2d, QuantLinear)):
-                got = (int(l.in_quantizer.precision), int(l.w_quantizer.precision), int(l.out_quantizer.precision))
-                s = summ[name]
-                want = (s['in_precision'], s['w_precision'], s['out_precision'])
-                if got != want:
-                    res['fail'].append(('summary', 'exported %s uses (in,w,out)=%s, summary() reports %s' % (name, got, want)))
-            elif isinstance(l, QuantIdentity):
-                if int(l.out_quantizer.precision) != summ[name]['out_precision']:
-                    res['fail'].append(('summary', 'exported %s uses out=%s, summary() reports %s'
-                                        % (name, int(l.out_quantizer.precision), summ[name]['out_precision'])))
+        for summ, when in ((summ_before, 'just before export()'), (m.summary(), 'after the eval forward')):
+            for name, l in e.named_modules():
+                if isinstance(l, (QuantConv2d, QuantLinear)):
+                    got = (int(l.in_quantizer.precision), int(l.w_quantizer.precision), int(l.out_quantizer.precision))
+                    s = summ[name]
+                    want = (s['in_precision'], s['w_precision'], s['out_precision'])
+                    if got != want:
+                        res['fail'].append(('summary', 'exported %s uses (in,w,out)=%s, summary() (%s) reports %s'
+                                            % (name, got, when, want)))
+                elif isinstance(l, QuantIdentity):
+                    if int(l.out_quantizer.precision) != summ[name]['out_precision']:
+                        res['fail'].append(('summary', 'exported %s uses out=%s, summary() (%s) reports %s'
+                                            % (name, int(l.out_quantizer.precision), when, summ[name]['out_precision'])))
         # ---- oracle 3: in bit-width = out bit-width selected for the tensor consumed (exported graph)
         qmods = (QuantConv2d, QuantLinear, QuantIdentity)
         for n in e.graph.nodes:
